@@ -935,9 +935,12 @@ class Gen:
             elif src.toks[k].kind == 'punct' and src.toks[k].text in '([{':
                 k = src.match[k]
             k += 1
-        if suffix or uses:
+        prelude = kw.get('prelude', '').replace('~', ' ')
+        if prelude:
+            self.drops.add('R4: loop-carried locals passed by value, rebound (`%s`) and returned' % prelude)
+        if suffix or uses or prelude:
             # the body is a statement of a function that ends with `suffix` (e.g. `Ok(())` when the body uses `?`)
-            self.emit('{', 'spec', specfile, specline, False)
+            self.emit('{ ' + prelude, 'spec', specfile, specline, False)
             for u in uses:
                 self.emit(self.clean(u), 'code', rel, it.line, False)
         # R4: a `continue` of THIS loop (not of a nested loop / closure) ends the body function: `return [suffix]`
@@ -948,7 +951,7 @@ class Gen:
                 self.drops.add('R4: `continue` of a sliced loop body becomes `return`')
         segs = self.body_with_insertions(src, bopen, src.match[bopen], lins, proofs, rel)
         self.emit_segs(segs, rel)
-        if suffix or uses:
+        if suffix or uses or prelude:
             self.emit(suffix + '\n}', 'spec', specfile, specline, False)
         self.end_block(c_lo, c_hi)
 
